@@ -3,7 +3,12 @@
 Sources: src/formats/mod.rs (`FORMATS`: the order of the `Box::<…>::default()` entries), each format's
 `get_file_extension` / `get_alt_extensions` string literals, and the shape of the dispatch in `Buffer::from_bytes`
 (src/buffers.rs): lower-cased extension, first entry whose extension or alternative extension is equal, ANSI as the
-fallback, the content slice `&bytes[..len]` with `len -= sauce.sauce_header_len`.  Regenerated on every run."""
+fallback, the content slice `&bytes[..len]` with `len -= sauce.sauce_header_len`.  Regenerated on every run.
+
+Also coq/Gen/C02Pal.v: the variants of `enum PaletteFormat` (src/palette_handling.rs) and, for every variant, the class of
+its arm in `Palette::load_palette` and `Palette::export_palette`: 0 = a reader / writer (the five text formats, modelled by
+C16's Model/PaletteFiles.v; gen_palette pins their shape), 1 = refuses (`return Err(..)`; `log::error!(..); Vec::new()`),
+2 = panics (`todo!()`, `unimplemented!()`, `panic!(..)`).  Any other arm is a G failure."""
 import os, re, sys
 sys.path.insert(0, os.path.join(os.path.dirname(__file__), '..'))
 from vlib.rustsrc import TranslateError
@@ -50,6 +55,50 @@ DISPATCH = re.compile(
     r'fmt\.get_alt_extensions\(\)\.contains\(&ext\) \{\s*return fmt\.load_buffer\(file_name, &bytes\[\.\.len\], sauce_data\);\s*\}\s*\}\s*'
     r'crate::Ansi::default\(\)\.load_buffer\(file_name, &bytes\[\.\.len\], sauce_data\)')
 
+PAL_CTOR = {'Ice': 'PIce', 'Hex': 'PHex', 'Pal': 'PPal', 'Gpl': 'PGpl', 'Txt': 'PTxt', 'Ase': 'PAse'}
+LOAD_ARM = [(r'match String::from_utf8\(bytes\.to_vec\(\)\) \{', 0), (r'\{\s*match String::from_utf8\(bytes\.to_vec\(\)\) \{', 0),
+            (r'return Err\(anyhow::anyhow!\("[^"]*"\)\),', 1), (r'(todo|unimplemented)!\(\),', 2), (r'panic!\(', 2)]
+EXPORT_ARM = [(r'\{\s*let mut res = String::new\(\);', 0), (r'\{\s*log::error!\("[^"]*"\);\s*Vec::new\(\)\s*\}', 1),
+              (r'Vec::new\(\),', 1), (r'(todo|unimplemented)!\(\),', 2), (r'panic!\(', 2)]
+
+def palette_arms(repo):
+    text = open(os.path.join(repo, 'src/palette_handling.rs')).read()
+    m = re.search(r'pub enum PaletteFormat \{([^}]*)\}', text)
+    if not m: raise TranslateError('enum PaletteFormat not found in src/palette_handling.rs')
+    variants = [v.strip() for v in m.group(1).split(',') if v.strip()]
+    if variants != list(PAL_CTOR): raise TranslateError('enum PaletteFormat is now %s; the palette model knows %s' % (variants, list(PAL_CTOR)))
+    res = {}
+    for fn, sig, pats in (('load_palette', r'\(format: &PaletteFormat, bytes: &\[u8\]\) -> anyhow::Result<Self>', LOAD_ARM),
+                          ('export_palette', r'\(&self, format: &PaletteFormat\) -> Vec<u8>', EXPORT_ARM)):
+        if not re.search(r'pub fn %s%s \{' % (fn, sig), text): raise TranslateError('Palette::%s: signature changed' % fn)
+        body = fn_body(text, fn)
+        if body is None or not re.match(r'\s*(let mut \w+ = (Vec|String)::new\(\);\s*)*match format \{', body):
+            raise TranslateError('Palette::%s is no longer a `match format`' % fn)
+        arms = {}
+        for v in variants:
+            hits = [mm for mm in re.finditer(r'PaletteFormat::%s =>\s*' % v, body)]
+            if len(hits) != 1: raise TranslateError('Palette::%s: %d arms for PaletteFormat::%s' % (fn, len(hits), v))
+            rest = body[hits[0].end():]
+            cls = [c for pat, c in pats if re.match(pat, rest)]
+            if not cls: raise TranslateError('Palette::%s: the arm of PaletteFormat::%s has no modelled shape: %s' % (fn, v, rest[:60].replace('\n', ' ')))
+            arms[v] = cls[0]
+        res[fn] = arms
+    return variants, res
+
+def generate_pal(repo):
+    variants, arms = palette_arms(repo)
+    out = ['(* GENERATED by translator/gen_c02.py from src/palette_handling.rs (enum PaletteFormat and the arms of',
+           '   Palette::load_palette / Palette::export_palette) -- do not edit *)',
+           'From Coq Require Import NArith.\nLocal Open Scope N_scope.\n',
+           '(* enum PaletteFormat, declaration order *)',
+           'Inductive palette_format := %s.\n' % ' | '.join(PAL_CTOR[v] for v in variants),
+           '(* class of the arm: 0 = reads / writes the format (model: Model/PaletteFiles.v), 1 = refuses (load: `return Err(..)`;',
+           '   export: logs and returns an empty vector), 2 = panics (`todo!()` …) *)']
+    for fn in ('load_palette', 'export_palette'):
+        out.append('Definition %s_arm (f : palette_format) : N :=\n  match f with %s end.'
+                   % (fn, ' | '.join('%s => %d' % (PAL_CTOR[v], arms[fn][v]) for v in variants)))
+    return '\n'.join(out) + '\n'
+
 def generate(repo):
     buf = open(os.path.join(repo, 'src/buffers.rs')).read()
     body = fn_body(buf, 'from_bytes')
@@ -65,7 +114,7 @@ def generate(repo):
            '(* FORMATS in declaration order: (format, its extension followed by the alternative extensions, as ASCII codes) *)',
            'Definition EXT_TABLE : list (fmt * list (list N)) :=\n  [' +
            ';\n   '.join('(%s, [%s])  (* %s *)' % (c, '; '.join('[' + '; '.join(str(ord(ch)) for ch in e) + ']' for e in exts), ' '.join(exts)) for c, exts in t) + '].']
-    return {'C02Ext.v': '\n'.join(out) + '\n'}
+    return {'C02Ext.v': '\n'.join(out) + '\n', 'C02Pal.v': generate_pal(repo)}
 
 if __name__ == '__main__':
-    print(generate(sys.argv[1])['C02Ext.v'])
+    for k, v in generate(sys.argv[1]).items(): print(v)
